@@ -371,10 +371,11 @@ def run(report, tier, seed):
     events = walk(report, rng, tier) + histories(rng, tier) + purity(rng, tier)
     for e in events:
         report.case(e, trivial=())
-    st = selftests(events, random.Random(seed))
+    judge(report, MODULE, events, relevant=RELEVANT)
+    st = selftests([e for e in events if e.get("_verdict") == "accepted"], random.Random(seed))
     if not st:
         raise MachineryError("no rejection self-test could be built")
-    judge(report, MODULE, events + st, relevant=RELEVANT)
+    judge(report, MODULE, st, relevant=RELEVANT)
     seen = set()
     for e in events:
         if e["feat"] not in seen:
